@@ -46,8 +46,12 @@ CLAIM = {
             'Partial: the outer loop of append_all_results (AppendAllConcatStatement) is proved only per name '
             '(append_extends_list, append_new_name_creates_list); the num_skipped_reps tail of merge_all_results '
             'is covered by the frame theorems and one decided instance. MISC values are numbers in the model. Not '
-            'modelled: unknown type codes, numpy-scalar observations, non-integer parameter values, parameter '
-            'values that are not 1-D integer arrays, JSON/pickle paths (C17). The non-terminating '
+            'modelled: unknown type codes, numpy-scalar observations, parameter values that are not 1-D numeric '
+            'arrays (values are exact rationals of the int/binary64 numbers, so close-but-distinct floats, 1-ulp '
+            'neighbours and 2 vs 2.0 are covered exactly), JSON/pickle paths (C17). Sharing of the value/total '
+            'LIST objects inside Result objects is not expressible in the model (lists are values there): it is '
+            'checked on the code by the history oracle (operands deep-compared after every later operation) and '
+            'by the script correspondence. The non-terminating '
             'append_all_results(self) is modelled (Fuel) but never executed on the code. Observer outputs '
             '(get_result/mean/var divide in binary64) are compared with rtol 1e-9, everything else exactly. '
             'Known finding: merging a never-updated MISC result resets the value.',
@@ -113,7 +117,7 @@ def params_state(p):
     for k in sorted(p.parameters.keys()):
         v = p.parameters[k]
         if k in p._unpacked_parameters_set:
-            unp.append((k, tuple(int(x) for x in np.asarray(v).tolist())))
+            unp.append((k, tuple(rs(fr(x)) for x in np.asarray(v).tolist())))
         else:
             fixed.append((k, int(v)))
     return (tuple(fixed), tuple(unp))
@@ -175,9 +179,10 @@ class Impl:
                         a, b = e.split('=')
                         d[a] = int(b)
                 if t[3] != '-':
-                    for e in t[3].split('&'):
+                    dts = t[4] if len(t) > 4 else ''
+                    for j, e in enumerate(t[3].split('&')):
                         a, b = e.split('=')
-                        d[a] = np.array([int(x) for x in b.split(':') if x != ''], dtype=int)
+                        d[a] = make_array([x for x in b.split(':') if x != ''], dts[j] if j < len(dts) else None)
                         unp.append(a)
                 p = par.SimulationParameters.create(d)
                 for a in unp:
@@ -278,7 +283,7 @@ def parse_model(reply):
                     ent.append((nm, int(l)))
             fx, _, un = p.partition('~')
             fixed = tuple((e.split('=')[0], int(e.split('=')[1])) for e in fx.split('&') if e != '')
-            unp = tuple((e.split('=')[0], tuple(int(x) for x in e.split('=')[1].split(':') if x != ''))
+            unp = tuple((e.split('=')[0], tuple(rs(Fraction(x)) for x in e.split('=')[1].split(':') if x != ''))
                         for e in un.split('&') if e != '')
             sims.append((ent, (fixed, unp)))
     rv = [int(x) for x in sec['V'].split(',') if x != '']
@@ -511,18 +516,62 @@ def gen_sim_script(rng, long=False):
     return ops, im
 
 
-def gen_grid(rng, nunp):
-    pool = list(range(1, 7))
+def make_array(tokens, dtype=None):
+    """numpy array of an unpacked parameter from exact value tokens; dtype 'i' (int64) / 'f' (binary64);
+    default: int when every value is integral"""
+    qs = [Fraction(x) for x in tokens]
+    if dtype is None:
+        dtype = 'i' if all(q.denominator == 1 for q in qs) else 'f'
+    if dtype == 'i':
+        return np.array([int(q) for q in qs], dtype=int)
+    vals = [q.numerator / q.denominator for q in qs]
+    assert all(Fraction(v) == q for v, q in zip(vals, qs)), 'value not a binary64 number'
+    return np.array(vals, dtype=float)
+
+
+def value_pool(rng):
+    """(kind, distinct candidate values of one unpacked parameter as exact Fractions, forced dtype or None).
+    Both operands draw from the same pool, so values overlap; the float pools hold values that are
+    distinct but close (within np.isclose defaults, down to one ulp)"""
+    kind = rng.choice(['int', 'int', 'tiny', 'big', 'ulp', 'mixed', 'dyadic', 'tiny', 'big'])
+    if kind == 'int':
+        return kind, [Fraction(v) for v in range(1, 7)], 'i'
+    if kind == 'dyadic':
+        return kind, [Fraction(v, 8) for v in (1, 2, 3, 8, 9, 20)], 'f'
+    if kind == 'mixed':                      # 2 (int array) and 2.0 (float array) are the same value
+        return kind, [Fraction(1), Fraction(2), Fraction(5, 2), Fraction(3), Fraction(7, 2), Fraction(4)], None
+    if kind == 'tiny':                       # linear noise powers: everything within atol=1e-8
+        scale = rng.choice([1e-9, 1e-12, 3e-10])
+        vals = [scale * m for m in (1.0, 2.0, 4.0, 3.0, 1.5, 8.0)]
+    elif kind == 'big':                      # carrier frequencies: relative gaps 1e-6 .. 1e-12
+        base = rng.choice([2.4e9, 5.0e9, 1.0e9])
+        vals = [base, base * (1 + 1e-6), base * (1 + 1e-9), base * (1 + 1e-12), base + 1.0, base * (1 - 1e-7)]
+        if abs(base - 2.4e9) < 1:
+            vals[1] = 2.40001e9
+    else:                                    # neighbouring doubles
+        x = rng.uniform(0.1, 100.0) * rng.choice([1.0, 1e-9, 1e9])
+        vals = [x]
+        for _ in range(5):
+            vals.append(float(np.nextafter(vals[-1], np.inf)))
     out = []
-    for j in range(nunp):
-        k = rng.randint(1, 3)
-        vals = []
-        while len(vals) < k:
-            v = rng.choice(pool)
-            if v not in vals or rng.chance(0.08):     # rare duplicate value (first match wins in the code)
-                vals.append(v)
-        out.append(vals)
-    return out
+    for v in vals:
+        q = Fraction(float(v))
+        if q not in out:
+            out.append(q)
+    return kind, out, 'f'
+
+
+def pick_values(rng, pool, forced, dup=0.06):
+    k = rng.randint(1, min(3, len(pool)))
+    vals = []
+    while len(vals) < k:
+        v = rng.choice(pool)
+        if v not in vals or rng.chance(dup):      # rare duplicate value (first match wins in the code)
+            vals.append(v)
+    dt = forced
+    if dt is None:
+        dt = 'i' if all(v.denominator == 1 for v in vals) and rng.chance(0.6) else 'f'
+    return vals, dt
 
 
 def gen_combine_script(rng, long=False):
@@ -538,16 +587,19 @@ def gen_combine_script(rng, long=False):
     names = ['a', 'b'][:rng.randint(1, 2)]
     spec = {nm: (rng.choice([0, 1, 2, 3]), rng.chance(0.25), rng.randint(1, 4)) for nm in names}
     fixed = 'f=%d' % rng.randint(1, 3)
+    pools = [value_pool(rng) for _ in range(nunp)]
     for s in range(2):
         do('ns')
-        grid = gen_grid(rng, nunp)
+        picked = [pick_values(rng, pools[j][1], pools[j][2]) for j in range(nunp)]
+        grid = [pv[0] for pv in picked]
+        dts = ''.join(pv[1] for pv in picked)
         fx = fixed
         if rng.chance(0.04):
             fx = 'f=9'
         if rng.chance(0.03):
             fx = fixed + '&g=1'
-        unp = '&'.join('%s=%s' % (pn[j], ':'.join(str(v) for v in grid[j])) for j in range(nunp)) or '-'
-        do('sp,%d,%s,%s' % (s, fx, unp))
+        unp = '&'.join('%s=%s' % (pn[j], ':'.join(tok(v) for v in grid[j])) for j in range(nunp)) or '-'
+        do('sp,%d,%s,%s%s' % (s, fx, unp, (',' + dts) if dts else ''))
         size = 1
         for g in grid:
             size *= len(g)
@@ -568,6 +620,8 @@ def gen_combine_script(rng, long=False):
                     do('u,r%d,%s,%s' % (a, v, t))
                 do('ap,%d,r%d' % (s, a))
     do('cb,0,1')
+    for pl in pools:
+        im.kinds = getattr(im, 'kinds', []) + [pl[0]]
     if len(im.sims) == 3:
         # touch the union: operands must not move (checked through the full dump)
         for nm, lst in im.sims[2]._results.items():
@@ -627,15 +681,57 @@ def feed(r, obs):
     return r
 
 
-def eval_tree_impl(t, ty, acc, cn, obs, name='x'):
+def deep_state(r):
+    """attributes of a Result incl. the *contents* of its lists (deep copy semantics)"""
+    return (res_state(r), copy.deepcopy(r._value_list), copy.deepcopy(r._total_list))
+
+
+def shares_objects(a, b):
+    """do two different Result objects share a mutable object (value/total list, CHOICE array)?"""
+    if a is b:
+        return False
+    if a._value_list is b._value_list or a._total_list is b._total_list:
+        return True
+    if isinstance(a._value, np.ndarray) and isinstance(b._value, np.ndarray) and np.shares_memory(a._value, b._value):
+        return True
+    return False
+
+
+class MergeLog:
+    """every merged-in operand with its snapshot; re-checked after every later operation"""
+
+    def __init__(self):
+        self.ops = []          # (operand, snapshot, receiver)
+
+    def merged(self, receiver, operand, snap):
+        self.ops.append((operand, snap, receiver))
+        self.recheck()
+
+    def recheck(self):
+        for k, (operand, snap, receiver) in enumerate(self.ops):
+            if deep_state(operand) != snap:
+                raise OperandMutated('operand of merge #%d changed (at or after the merge)%s' % (
+                    k, '; it shares a list/array object with the receiver' if shares_objects(receiver, operand)
+                    else ''))
+
+
+def probe_obs(ty, cn):
+    """one more valid update, used to continue a history after the checks"""
+    return (0, None) if ty == TY['choice'] else (1, 2)
+
+
+def eval_tree_impl(t, ty, acc, cn, obs, name='x', log=None):
+    """evaluates the merge tree on real objects; every merged-in operand is snapshotted before its merge
+    and compared again after every later merge of the evaluation"""
+    top = log is None
+    log = MergeLog() if top else log
     if t[0] == 'L':
         return feed(make_result(ty, acc, cn, name), obs[t[1]:t[2]])
-    a = eval_tree_impl(t[1], ty, acc, cn, obs, name)
-    b = eval_tree_impl(t[2], ty, acc, cn, obs, name)
-    snap = res_state(b)
+    a = eval_tree_impl(t[1], ty, acc, cn, obs, name, log)
+    b = eval_tree_impl(t[2], ty, acc, cn, obs, name, log)
+    snap = deep_state(b)
     a.merge(b)
-    if res_state(b) != snap:
-        raise OperandMutated('Result.merge changed its argument')
+    log.merged(a, b, snap)
     return a
 
 
@@ -737,8 +833,9 @@ def o_partition(case):
         whole = feed(make_result(ty, acc, cn), obs)
     except Exception as e:
         return '%s:update:exception:%s' % (tn, type(e).__name__), repr(e)[:300]
+    log = MergeLog()
     try:
-        merged = eval_tree_impl(t, ty, acc, cn, obs)
+        merged = eval_tree_impl(t, ty, acc, cn, obs, log=log)
     except OperandMutated as e:
         return '%s:merge:operand-mutated' % tn, str(e)
     except Exception as e:
@@ -751,7 +848,7 @@ def o_partition(case):
             if misc_empty_after_data(t):
                 return 'misc:never-updated-operand-resets', d
             return 'misc:last-observation-lost', d
-        return None
+        return _probe_later(merged, log, ty, cn, tn)
     d = check_stats(whole, ty, cn, obs, acc)
     if d:
         return '%s:accumulate-wrong' % tn, d
@@ -767,6 +864,113 @@ def o_partition(case):
                     or merged.get_result_mean() != whole.get_result_mean()
                     or merged.get_result_var() != whole.get_result_var()):
             return '%s:merged-differs' % tn, 'observers differ'
+    return _probe_later(merged, log, ty, cn, tn)
+
+
+def _probe_later(merged, log, ty, cn, tn):
+    """the history goes on: one more update of the merged object must not reach any merged-in operand"""
+    try:
+        merged.update(*probe_obs(ty, cn))
+        log.recheck()
+    except OperandMutated as e:
+        return '%s:merge:operand-mutated-later' % tn, str(e)
+    except Exception as e:
+        return '%s:update:exception:%s' % (tn, type(e).__name__), repr(e)[:300]
+    return None
+
+
+def o_history(case):
+    """the chunks are separate objects merged left to right into a NEW accumulator, with updates of the
+    accumulator in between; after EVERY operation every already merged chunk must be what it was (deep
+    compare incl. list contents) and share no list/array with the accumulator; then the SAME chunk objects are
+    merged again in a second grouping and must give the single-object result"""
+    ty, acc, cn = case['ty'], case['acc'], case['cn']
+    tn = '%s:acc=%d' % (TYN[ty], 1 if acc else 0)
+    chunks = [[tuple(o) for o in c] for c in case['chunks']]
+    extras = {int(k): [tuple(o) for o in v] for k, v in (case.get('extras') or {}).items()}
+    try:
+        objs = [feed(make_result(ty, acc, cn), c) for c in chunks]
+        snaps = [deep_state(o) for o in objs]
+        accu = make_result(ty, acc, cn)
+        seen = []                                   # observation sequence the accumulator stands for
+
+        def verify(upto, what):
+            for j in range(upto + 1):
+                if deep_state(objs[j]) != snaps[j]:
+                    return ('%s:operand-mutated-later' % tn,
+                            'chunk #%d changed after %s%s: %r -> %r' % (
+                                j, what, ' (it shares a list/array with the accumulator)'
+                                if shares_objects(accu, objs[j]) else '', snaps[j][0], res_state(objs[j])))
+            return None
+
+        for i, c in enumerate(objs):
+            accu.merge(c)
+            if ty == TY['misc']:
+                seen = seen + chunks[i] if acc else chunks[i]
+            else:
+                seen += chunks[i]
+            r = verify(i, 'merge #%d' % i)
+            if r:
+                return r
+            for ob in extras.get(i, []):
+                accu.update(pynum(Fraction(ob[0])), None if ob[1] == '-' else pynum(Fraction(ob[1])))
+                seen = seen + [ob]
+                r = verify(i, 'update after merge #%d' % i)
+                if r:
+                    return r
+        allobs = [o for c in chunks for o in c]
+        if ty == TY['misc']:
+            # MISC: value = last observation seen; value list (accumulation on) = everything seen
+            last = None
+            for i, c in enumerate(chunks):
+                if c:
+                    last = c[-1]
+                for ob in extras.get(i, []):
+                    last = ob
+            if last is not None and fr(accu._value) != Fraction(last[0]):
+                return '%s:accumulator-differs' % tn, 'MISC value %s, last observation %s' % (accu._value, last[0])
+        else:
+            full = []
+            for i, c in enumerate(chunks):
+                full += c + extras.get(i, [])
+            d = check_stats(accu, ty, cn, full, acc)
+            if d:
+                return '%s:accumulator-differs' % tn, d
+        # second grouping with the same chunk objects (never as receivers)
+        def ev(t):
+            if t[0] == 'L':
+                return objs[t[1]]
+            x = make_result(ty, acc, cn)
+            x.merge(ev(t[1]))
+            x.merge(ev(t[2]))
+            return x
+        regrouped = make_result(ty, acc, cn)
+        regrouped.merge(ev(tuplify(case['tree2'])))
+        r = verify(len(objs) - 1, 'the second grouping')
+        if r:
+            return r
+        if ty == TY['misc']:
+            nonempty = [c for c in chunks if c]
+            if chunks and chunks[-1] and fr(regrouped._value) != Fraction(chunks[-1][-1][0]):
+                return '%s:regrouped-differs' % tn, 'MISC value %s' % regrouped._value
+            if acc and [fr(v) for v in regrouped._value_list] != [Fraction(o[0]) for o in allobs]:
+                return '%s:regrouped-differs' % tn, 'value_list of the regrouped merge has %d entries for %d ' \
+                    'observations' % (len(regrouped._value_list), len(allobs))
+        else:
+            d = check_stats(regrouped, ty, cn, allobs, acc)
+            if d:
+                return '%s:regrouped-differs' % tn, d
+            whole = feed(make_result(ty, acc, cn), allobs)
+            if res_state(regrouped) != res_state(whole) or not (regrouped == whole):
+                return '%s:regrouped-differs' % tn, 'regrouped merge differs from the single object'
+        # the histories go on: one more update of each accumulator
+        accu.update(*probe_obs(ty, cn))
+        regrouped.update(*probe_obs(ty, cn))
+        r = verify(len(objs) - 1, 'a later update of the accumulators')
+        if r:
+            return r
+    except Exception as e:
+        return '%s:exception:%s' % (tn, type(e).__name__), repr(e)[:300]
     return None
 
 
@@ -794,6 +998,7 @@ def o_mergeall(case):
     obs = {nm: [tuple(o) for o in case['obs'][nm]] for nm, _, _, _ in specs}
     # the number of observations of every name is the same (one per repetition); chunk = slice
     operands = []     # (object, snapshot, left-was-empty)
+    top = None
 
     prefix = case.get('prefix') or {}
 
@@ -823,10 +1028,16 @@ def o_mergeall(case):
             top = ev(t, True)
     except Exception as e:
         return 'exception:%s' % type(e).__name__, repr(e)[:300]
-    for b, snap, into_empty in operands:
-        if sim_state(b) != snap:
-            return ('operand-mutated:into-empty' if into_empty else 'operand-mutated:into-nonempty',
-                    'a merged-in SimulationResults changed after it was merged')
+    def operands_ok(when):
+        for b, snap, into_empty in operands:
+            if sim_state(b) != snap:
+                return ('operand-mutated:into-empty' if into_empty else 'operand-mutated:into-nonempty',
+                        'a merged-in SimulationResults changed %s' % when)
+        return None
+
+    r = operands_ok('after it was merged')
+    if r:
+        return r
     for nm, ty, acc, cn in specs:
         lst = top[nm]
         pre = [] if case.get('into_empty') else prefix.get(nm, [])
@@ -840,7 +1051,14 @@ def o_mergeall(case):
         d = check_stats(lst[-1], ty, cn, obs[nm], acc)
         if d:
             return '%s:merged-differs' % TYN[ty], '%s: %s' % (nm, d)
-    return None
+    # later operations on the accumulating object: updates through it and one more merge
+    try:
+        for nm, ty, acc, cn in specs:
+            top[nm][-1].update(0 if ty == TY['choice'] else 1, 2)
+        top.merge_all_results(build_sim(specs, {nm: [] for nm, _, _, _ in specs}))
+    except Exception as e:
+        return 'exception:%s' % type(e).__name__, repr(e)[:300]
+    return operands_ok('by a later update/merge of the accumulating object')
 
 
 def o_appendall(case):
@@ -875,11 +1093,17 @@ def o_appendall(case):
     return None
 
 
-def build_grid_sim(fixed, names, grid, specs, cells):
+def combo_key(combo):
+    return ','.join(tok(Fraction(c)) for c in combo)
+
+
+def build_grid_sim(fixed, names, grid, dtypes, specs, cells):
+    """a result set over the grid (value tokens, exact) with one Result per combination, in the order of
+    get_unpacked_params_list (first parameter slowest)"""
     res, par = _impl()
     d = dict(fixed)
-    for nm, vals in zip(names, grid):
-        d[nm] = np.array(vals, dtype=int)
+    for j, (nm, vals) in enumerate(zip(names, grid)):
+        d[nm] = make_array([str(v) for v in vals], dtypes[j] if dtypes else None)
     p = par.SimulationParameters.create(d)
     for nm in names:
         p.set_unpack_parameter(nm)
@@ -887,35 +1111,50 @@ def build_grid_sim(fixed, names, grid, specs, cells):
     s.set_parameters(p)
     for rn, ty, acc, cn in specs:
         for combo in itertools.product(*grid):
-            key = ','.join(str(c) for c in combo)
-            s.append_result(feed(make_result(ty, acc, cn, rn), [tuple(o) for o in cells[rn][key]]))
+            s.append_result(feed(make_result(ty, acc, cn, rn), [tuple(o) for o in cells[rn][combo_key(combo)]]))
     return s
 
 
+def grid_kind(grids):
+    """input class of a combine case, computed from the parameter values: how close distinct values get"""
+    vals = sorted({Fraction(str(v)) for g in grids for vs in g for v in vs})
+    if not vals:
+        return 'no-unpacked'
+    close = False
+    for a, b in zip(vals, vals[1:]):
+        fa, fb = float(a), float(b)
+        if abs(fa - fb) <= 1e-8 + 1e-5 * abs(fb):
+            close = True
+    return 'close-values' if close else 'grid'
+
+
 def o_combine(case):
-    """union over parameter grids: per combination the same law; operands untouched"""
+    """union over parameter grids: the union keeps distinct values distinct; per combination the same law
+    (exactly the operands' results AT THAT EXACT VALUE); operands untouched"""
     res, _ = _impl()
     specs = [tuple(x) for x in case['specs']]
     names = case['pnames']                       # sorted names of the unpacked parameters
-    grids = case['grids']                        # two lists of value lists (no duplicates)
-    cells = case['cells']                        # two dicts name -> 'v,v' -> observation list
-    fixed = case['fixed']
-    kind = 'no-unpacked' if not names else 'grid'
+    grids = case['grids']                        # two lists of value-token lists (no duplicates)
+    dtypes = case.get('dtypes') or [None, None]
+    cells = case['cells']                        # two dicts name -> combination key -> observation list
+    fixed = [tuple(x) for x in case['fixed']]
     tys = sorted({TYN[ty] for _, ty, _, _ in specs})
-    pre = '%s:%s' % (kind, '+'.join(tys))
+    pre = '%s:%s' % (grid_kind(grids), '+'.join(tys))
     try:
-        s1 = build_grid_sim(fixed, names, grids[0], specs, cells[0])
-        s2 = build_grid_sim(fixed, names, grids[1], specs, cells[1])
+        s1 = build_grid_sim(fixed, names, grids[0], dtypes[0], specs, cells[0])
+        s2 = build_grid_sim(fixed, names, grids[1], dtypes[1], specs, cells[1])
         snap1, snap2 = sim_state(s1), sim_state(s2)
         u = res.combine_simulation_results(s1, s2)
     except BaseException as e:
         if isinstance(e, (KeyboardInterrupt, SystemExit, MemoryError)):
             raise
         return '%s:exception:%s' % (pre, type(e).__name__), repr(e)[:300]
-    ugrid = [sorted(set(a) | set(b)) for a, b in zip(grids[0], grids[1])]
+    q = [[[Fraction(str(v)) for v in vs] for vs in g] for g in grids]
+    ugrid = [sorted(set(a) | set(b)) for a, b in zip(q[0], q[1])]
     for nm, vals in zip(names, ugrid):
-        if [int(x) for x in np.asarray(u.params[nm]).tolist()] != vals:
-            return '%s:union-grid' % pre, '%s: %r expected %r' % (nm, u.params[nm], vals)
+        got = [fr(x) for x in np.asarray(u.params[nm]).tolist()]
+        if got != vals:
+            return '%s:union-grid' % pre, '%s: %r expected %r' % (nm, u.params[nm], [float(v) for v in vals])
     combos = [[]]
     for vals in ugrid:
         combos = [c + [v] for c in combos for v in vals]
@@ -924,10 +1163,10 @@ def o_combine(case):
         if len(lst) != len(combos):
             return '%s:shape' % pre, '%s: %d results for %d combinations' % (rn, len(lst), len(combos))
         for r, combo in zip(lst, combos):
-            key = ','.join(str(c) for c in combo)
+            key = combo_key(combo)
             ob = []
-            for g, c in zip(grids, cells):
-                if all(v in vals for v, vals in zip(combo, g)):
+            for g, c in zip(q, cells):
+                if all(v in vals for v, vals in zip(combo, g)):       # exact equality of the values
                     ob += [tuple(o) for o in c[rn][key]]
             d = check_stats(r, ty, cn, ob, False)
             if d:
@@ -947,6 +1186,7 @@ def o_combine(case):
 
 ORACLES = {
     'Result.merge': o_partition,
+    'Result.merge/history': o_history,
     'SimulationResults.merge_all_results': o_mergeall,
     'SimulationResults.append_all_results': o_appendall,
     'combine_simulation_results': o_combine,
@@ -997,6 +1237,29 @@ def gen_partition_case(rng, nmax, ty=None, allow_empty=True):
     return {'ty': ty, 'acc': rng.chance(0.5), 'cn': cn, 'obs': obs, 'tree': tree}
 
 
+def gen_history_case(rng, ty=None, acc=None):
+    ty = rng.choice([0, 1, 2, 3]) if ty is None else ty
+    acc = rng.chance(0.6) if acc is None else acc
+    cn = rng.randint(1, 5)
+    k = rng.randint(2, 5)
+    lo = 1 if ty == TY['misc'] else 0
+    chunks = [gen_obs_list(rng, ty, cn, rng.randint(lo, 4)) for _ in range(k)]
+    if rng.chance(0.7) and not chunks[0]:
+        chunks[0] = gen_obs_list(rng, ty, cn, rng.randint(1, 3))
+    extras = {}
+    for i in range(k):
+        if rng.chance(0.35):
+            extras[str(i)] = gen_obs_list(rng, ty, cn, rng.randint(1, 2))
+
+    def build(ix):
+        if len(ix) == 1:
+            return ['L', ix[0]]
+        c = rng.randint(1, len(ix) - 1)
+        return ['N', build(ix[:c]), build(ix[c:])]
+
+    return {'ty': ty, 'acc': acc, 'cn': cn, 'chunks': chunks, 'extras': extras, 'tree2': build(list(range(k)))}
+
+
 def gen_mergeall_case(rng, nmax):
     nn = rng.randint(1, 3)
     specs = []
@@ -1037,26 +1300,22 @@ def gen_combine_case(rng, nunp=None, ty=None):
     nn = rng.randint(1, 2)
     specs = [[nm, rng.choice([0, 1, 2, 3]) if ty is None else ty, False, rng.randint(1, 4)]
              for nm in ['a', 'b'][:nn]]
-    grids, cells = [], []
+    pools = [value_pool(rng) for _ in range(nunp)]
+    grids, cells, dtypes = [], [], []
     for _ in range(2):
-        grid = []
-        for _ in range(nunp):
-            vals = list(range(1, 7))
-            rng.shuffle(vals)
-            grid.append(vals[:rng.randint(1, 3)])
+        picked = [pick_values(rng, pl[1], pl[2], dup=0.0) for pl in pools]
+        grid = [pv[0] for pv in picked]
         c = {}
         for rn, t, acc, cn in specs:
             c[rn] = {}
             for combo in itertools.product(*grid):
-                k = ','.join(str(x) for x in combo)
                 lo = 1 if t == TY['misc'] else 0
-                o = gen_obs_list(rng, t, cn, rng.randint(lo, 3))
-                if t == TY['ratio']:
-                    o = [[v, x[1:] if x.startswith('-') else x] for v, x in o]
-                c[rn][k] = o
-        grids.append(grid)
+                c[rn][combo_key(combo)] = gen_obs_list(rng, t, cn, rng.randint(lo, 3))
+        grids.append([[tok(v) for v in vs] for vs in grid])
+        dtypes.append(''.join(pv[1] for pv in picked))
         cells.append(c)
-    return {'specs': specs, 'pnames': pn, 'grids': grids, 'cells': cells, 'fixed': [['f', 3]]}
+    return {'specs': specs, 'pnames': pn, 'grids': grids, 'dtypes': dtypes, 'cells': cells, 'fixed': [['f', 3]],
+            'kinds': [pl[0] for pl in pools]}
 
 
 # ------------------------------------------------------------------ correspondence
@@ -1082,6 +1341,8 @@ def corr_scripts(ctx, drv, name, gen, count, long=False):
     for _ in range(count):
         ops, im = gen(ctx.rng, long)
         im_c = im.canon()
+        for kd in getattr(im, 'kinds', []):
+            ctx.branch('script:values=' + kd)
         for op in ops:
             ctx.branch('op:' + op.split(',')[0])
         batch.append('prog ' + ' '.join(ops))
@@ -1205,6 +1466,12 @@ def oracles(ctx, quick):
     for _ in range(100 * k):
         case = gen_partition_case(ctx.rng, nmax, ty=TY['misc'], allow_empty=False)
         run_oracle(ctx, 'Result.merge', case, nontrivial=len(case['obs']) >= 2)
+    for ty in (0, 1, 2, 3):                   # every type with accumulation on AND off
+        for acc in (False, True):
+            for _ in range(40 * k):
+                case = gen_history_case(ctx.rng, ty, acc)
+                run_oracle(ctx, 'Result.merge/history', case)
+                ctx.branch('history:%s:acc=%d' % (TYN[ty], 1 if acc else 0))
     for _ in range(200 * k):
         run_oracle(ctx, 'SimulationResults.merge_all_results', gen_mergeall_case(ctx.rng, 12 if quick else 40))
     for _ in range(100 * k):
@@ -1213,6 +1480,9 @@ def oracles(ctx, quick):
         case = gen_combine_case(ctx.rng)
         run_oracle(ctx, 'combine_simulation_results', case)
         ctx.branch('combine:nunp=%d' % len(case['pnames']))
+        for kd in case['kinds']:
+            ctx.branch('combine:values=' + kd)
+        ctx.branch('combine:class=' + grid_kind(case['grids']))
 
 
 def exhaustive_small(ctx):
@@ -1253,14 +1523,18 @@ def check(ctx):
                 'accumulation on/off, valid and malformed updates, merges in arbitrary order incl. incompatible '
                 'operands), SimulationResults level (2-5 objects, add/append/merge_all/append_all in arbitrary '
                 'order, merges into empty objects followed by further merges, updates through shared objects), '
-                'combine level (0-3 unpacked parameters with overlapping integer values, rare duplicates and '
-                'ill-formed operands); merge trees over random contiguous splits (length 0-40 quick / 0-150 '
+                'combine level (0-3 unpacked parameters whose overlapping values are drawn per parameter from one of: '
+                'small ints, dyadics, mixed int/float equal values (2 vs 2.0), 1e-9..1e-12-scale floats, 1e9-scale '
+                'floats with relative gaps 1e-6..1e-12, neighbouring doubles; rare duplicates and ill-formed operands); merge trees over random contiguous splits (length 0-40 quick / 0-150 '
                 'thorough); non-trivial = distinct script with >= 4 ops / distinct case with >= 2 observations')
     core.prove(ctx, MODULE, generated=[], drivers=[DRIVER], scratch=ctx.scratch)
     ctx.required_branches = ['corpus', 'op:ma', 'op:aa', 'op:cb', 'op:m', 'op:u', 'tree:sum', 'tree:ratio', 'tree:misc',
                              'tree:choice', 'err:AssertionError', 'err:ZeroDivisionError', 'err:ValueError',
                              'err:IndexError', 'err:KeyError', 'err:RuntimeError',
-                             'partition:choice', 'combine:nunp=0', 'combine:nunp=2']
+                             'partition:choice', 'combine:nunp=0', 'combine:nunp=2', 'combine:values=tiny', 'combine:values=big',
+                             'combine:values=ulp', 'combine:values=mixed', 'combine:class=close-values',
+                             'history:sum:acc=1', 'history:misc:acc=1', 'history:choice:acc=0', 'script:values=tiny',
+                             'script:values=big', 'script:values=ulp', 'script:values=mixed']
     try:
         correspondence(ctx, quick)
     except core.Infra as e:
@@ -1280,6 +1554,8 @@ def search(ctx):
     """deeper failing-input search, used when a proof / correspondence broke"""
     for _ in range(4000):
         run_oracle(ctx, 'Result.merge', gen_partition_case(ctx.rng, 60))
+    for _ in range(3000):
+        run_oracle(ctx, 'Result.merge/history', gen_history_case(ctx.rng))
     for _ in range(1500):
         run_oracle(ctx, 'SimulationResults.merge_all_results', gen_mergeall_case(ctx.rng, 20))
     for _ in range(500):
